@@ -23,35 +23,59 @@
 (***************************************************************************)
 EXTENDS Integers, Sequences, FiniteSets, TLC
 
+\* (the @type annotations are for Apalache, which discharges the inductive step of
+\*  C19 without a bound on the datagram history - Election_ind.tla; TLC ignores them)
 CONSTANTS
+  \* @type: Str;
   Me,          \* this node's id
+  \* @type: Set(Str);
   Peers_,      \* ids of the configured peers
+  \* @type: Set(Str);
   Foreign_,    \* ids that are not part of the cluster
+  \* @type: Int;
   Quorum,      \* effective quorum (configured, or Cardinality(Peers_ \cup {Me}) \div 2 + 1)
+  \* @type: Int;
   MyPrio,      \* this node's priority value (lower value = higher priority, lib.rs:75-85)
+  \* @type: Bool;
   QuorumTooLow,\* quorum below the majority and suicide_on_split_brain set (leader.rs:131)
+  \* @type: Set(Str);
   EDev         \* deviations switched on
 
 VARIABLES
-  phase, inbox,
+  \* @type: Str;
+  phase,
+  \* @type: Seq({t: Str, id: Str, prio: Int});
+  inbox,
+  \* @type: Int;
   votes,       \* votes_in_my_favor
+  \* @type: Set(Str);
   mayVote,     \* the de-duplication list of the running round (election.rs:163-168)
+  \* @type: Str;
   hbFrom,      \* where wait_for_heartbeat was entered from: "wait" | "votes"
+  \* @type: Str;
   leader,      \* whom the node follows (phase "follower")
+  \* @type: Str -> Seq({t: Str, id: Str, prio: Int});
   net,         \* peer id -> Seq(datagram) sent to that peer, not yet observed
+  \* @type: Seq({t: Str, mode: Str, to: Str});
   proc,        \* Seq of starts / stops of the server process, not yet observed
   \* reference layer (not read by the actions)
+  \* @type: Set(Str);
   roundVoters, \* configured peers whose vote response was received since the votes were requested
+  \* @type: Set(Str);
   announced,   \* ids whose heartbeat request has been received
+  \* @type: Set(Str);
   eused
 
 evars == <<phase, inbox, votes, mayVote, hbFrom, leader, net, proc, roundVoters, announced, eused>>
 
 Ids == Peers_ \cup Foreign_ \cup {Me}
 VoteReq(id, p) == [t |-> "voteReq", id |-> id, prio |-> p]
-VoteResp(id)   == [t |-> "voteResp", id |-> id]
-HbReq(id)      == [t |-> "hbReq", id |-> id]
-HbResp(id)     == [t |-> "hbResp", id |-> id]
+\* (one record shape for all datagrams: prio is 0 where the protocol has none)
+VoteResp(id)   == [t |-> "voteResp", id |-> id, prio |-> 0]
+HbReq(id)      == [t |-> "hbReq", id |-> id, prio |-> 0]
+HbResp(id)     == [t |-> "hbResp", id |-> id, prio |-> 0]
+PStart(mode, to) == [t |-> "start", mode |-> mode, to |-> to]
+PStop == [t |-> "stop", mode |-> "", to |-> ""]
 
 EInit ==
   /\ phase = "wait" /\ inbox = <<>> /\ votes = 0 /\ mayVote = {} /\ hbFrom = "wait" /\ leader = Me
@@ -63,12 +87,12 @@ Broadcast(q, m) == [p \in Peers_ |-> Append(q[p], m)]
 
 \* lead(): the server is started with --leader
 BecomeLeader ==
-  /\ phase' = "leader" /\ proc' = Append(proc, [t |-> "start", mode |-> "leader"])
+  /\ phase' = "leader" /\ proc' = Append(proc, PStart("leader", ""))
 \* follow(hb): peers.sync_addr(id) = None returns at once (follower.rs:41-45) and the main loop starts the next election
 BecomeFollower(id) ==
   IF id \in Peers_
     THEN /\ phase' = "follower" /\ leader' = id
-         /\ proc' = Append(proc, [t |-> "start", mode |-> "follower", to |-> id])
+         /\ proc' = Append(proc, PStart("follower", id))
     ELSE /\ phase' = "wait" /\ UNCHANGED <<leader, proc>>
 
 \* "Requesting peers to vote for me" (election.rs:144-161)
@@ -120,7 +144,7 @@ Recv ==
           [] phase = "leader" ->
                IF m.t = "hbReq" /\ QuorumTooLow
                  THEN \* split brain: drop the lead (leader.rs:131-137)
-                      /\ phase' = "wait" /\ proc' = Append(proc, [t |-> "stop"])
+                      /\ phase' = "wait" /\ proc' = Append(proc, PStop)
                       /\ UNCHANGED <<votes, mayVote, hbFrom, leader, net, roundVoters>>
                ELSE UNCHANGED <<phase, votes, mayVote, hbFrom, leader, net, proc, roundVoters>>
           [] phase = "follower" ->
@@ -138,7 +162,7 @@ Timeout ==
                                THEN RequestVotes /\ UNCHANGED <<hbFrom, leader>>     \* falls through to the request (election.rs:126-161)
                                ELSE phase' = "wait" /\ UNCHANGED <<votes, mayVote, hbFrom, leader, net, proc, roundVoters>>
        [] phase \in {"leader", "follower"} ->
-               /\ phase' = "wait" /\ proc' = Append(proc, [t |-> "stop"])
+               /\ phase' = "wait" /\ proc' = Append(proc, PStop)
                /\ UNCHANGED <<votes, mayVote, hbFrom, leader, net, roundVoters>>
   /\ UNCHANGED <<inbox, announced, eused>>
 
